@@ -2,7 +2,7 @@
    A case = the inputs of one call of the implementation (floats, read exactly through f2q)
    together with what the implementation returned; `check` evaluates the model of Model/LWR.v
    in exact rational arithmetic and compares with a tolerance. *)
-From Coq Require Import ZArith QArith List Bool PrimFloat Lia.
+From Coq Require Import ZArith QArith List Bool PrimFloat FloatOps Lia.
 From NT Require Import F2Z Lists Close Sums LWR.
 Import ListNotations.
 
@@ -106,7 +106,7 @@ Definition cols (nc N : nat) (rows : list (list Q)) : list (list Q) :=
 Definition rxy_close (m : list (list (list Q))) (w : list (list (list float))) : bool :=
   all2 (fun a b => all2 vec_close a b) m w.
 
-Definition check (c : case) : bool :=
+Definition check_raw (c : case) : bool :=
   match c with
   | KLwr exact nc r a sigma =>
       (let '(az, sz) := lwr_recursion (fx_ops nc) (map fx_mat r) in
@@ -163,3 +163,47 @@ Definition check (c : case) : bool :=
       cl (if is_bic then bic (q_of L) (q_of lN) p m Ntotal else aic (q_of L) p m Ntotal corrected)
          (q_of value)
   end.
+
+(* ---- scale normalisation ---------------------------------------------------------------------
+   The recursion is scale-equivariant (C11_lwr_scale_equivariant: r |-> c r gives the same
+   coefficients and c sigma), the covariance helper is bilinear, generate_mar is linear in the noise.
+   Before comparing, every case is therefore brought to unit scale by EXACT powers of two applied
+   to its float data (inputs and the implementation's outputs alike): the tolerances of `check_raw`
+   are then relative to the size of R(0) / of the data, whatever the physical units were, and the
+   2^-96 fixed-point instance keeps its precision. *)
+Definition qmaxabs (l : list float) : Q :=
+  fold_left (fun acc f => let v := Qabsb (f2q f) in if Qle_bool acc v then v else acc) l 0%Q.
+Definition qmaxabs_m (m : fmat) : Q :=
+  fold_left (fun acc r => let v := qmaxabs r in if Qle_bool acc v then v else acc) m 0%Q.
+(* e with 2^e * q in about [1/2, 2) ; 0 for q = 0 *)
+Definition norm_exp (q : Q) : Z :=
+  if Qeq_bool q 0 then 0%Z else (Z.log2 (Zpos (Qden q)) - Z.log2 (Z.abs (Qnum q)))%Z.
+Definition fsc (e : Z) (f : float) : float := PrimFloat.mul f (Z.ldexp 1%float e).
+Definition vsc (e : Z) (v : list float) : list float := map (fsc e) v.
+Definition msc (e : Z) (m : fmat) : fmat := map (vsc e) m.
+
+Definition normalise (c : case) : case :=
+  match c with
+  | KLwr exact nc r a sigma =>
+      let e := norm_exp (qmaxabs_m (nth 0 r [])) in
+      KLwr exact nc (map (msc e) r) a (msc e sigma)
+  | KLd r order w b =>
+      let e := norm_exp (qmaxabs (firstn 1 r)) in KLd (vsc e r) order w (fsc e b)
+  | KCov x y nlags rxy =>
+      let ex := norm_exp (qmaxabs_m x) in let ey := norm_exp (qmaxabs_m y) in
+      KCov (msc ex x) (msc ey y) nlags (map (msc (ex + ey)) rxy)
+  | KMar exact x order a ecov =>
+      let e := norm_exp (qmaxabs_m x) in KMar exact (msc e x) order a (msc (2 * e) ecov)
+  | KFit exact x1 x2 order max_order crit out =>
+      let e := norm_exp (qmaxabs_m [x1; x2]) in
+      KFit exact (vsc e x1) (vsc e x2) order max_order crit
+           (match out with
+            | FitOk o nl Rxx cf ec => FitOk o nl (map (msc (2 * e)) Rxx) cf (msc (2 * e) ec)
+            | FitValueError => FitValueError
+            end)
+  | KGen nc N a nz mar =>
+      let e := norm_exp (qmaxabs_m nz) in KGen nc N a (msc e nz) (msc e mar)
+  | KCrit _ _ _ _ _ _ _ _ => c
+  end.
+
+Definition check (c : case) : bool := check_raw (normalise c).
